@@ -107,7 +107,7 @@ func checkC03Const(c *Ctx) {
 				switch {
 				case matches(x, CallTo(pkgXform+".ConstFold", Any())):
 				case matches(x, ExtractN(0, CallTo("(*"+pkgState+".RegMap).Load", Any()))):
-				case fn.Name() == "recordOutput" && (matches(x, Method("Addr", Any())) || matches(x, Method("Value", Any()))):
+				case NameOf(fn) == "recordOutput" && (matches(x, Method("Addr", Any())) || matches(x, Method("Value", Any()))):
 				case matches(x, ExtractN(0, Method("Load", Any()))):
 					why = "the result of a memory Load is asserted to be a constant without constant folding: a read that is assembled from more than one stored piece (two adjacent stores, a read inside a wider store, a read across the program image's end) is an unfolded expression and the assertion panics"
 				default:
@@ -325,7 +325,7 @@ func checkC04(c *Ctx) {
 		key := ShortName(fn) + "/" + m
 		pos := c.Prog.Pos(cs.Pos())
 		allowed := map[string]string{"Register": "regValue", "Memory": "memValue"}
-		c.Oblige("C04.callers", key, pos, fn.Name() == allowed[m] && PkgPathOf(fn) == ModulePath+"/"+pkgEmul, "the provider is asked from "+ShortName(fn))
+		c.Oblige("C04.callers", key, pos, NameOf(fn) == allowed[m] && PkgPathOf(fn) == ModulePath+"/"+pkgEmul, "the provider is asked from "+ShortName(fn))
 		call, _ := cs.Instr.(*ssa.Call)
 		if call == nil {
 			c.Fail("C04.miss", key, pos, "provider called in a go/defer statement")
@@ -368,7 +368,12 @@ func checkC04(c *Ctx) {
 			// args from Missing(...).Intervals() element
 			argOK, why := false, "the asked range is not an element of MemMap.Missing(key, addr, w).Intervals()"
 			for _, l := range RangeLoops(fn) {
-				bd, ok := Match(l.Over, Method("Intervals", CallTo("("+pkgMemory+".MemMap).Missing", Any(), Capture("k", Any()), Capture("a", Any()), Capture("w", Any()))))
+				missing := CallTo("("+pkgMemory+".MemMap).Missing", Any(), Capture("k", Any()), Capture("a", Any()), Capture("w", Any()))
+				bd, ok := Match(l.Over, Method("Intervals", missing))
+				if !ok && l.Coll {
+					// for i := 0; i < m.Len(); i++ { m.Index(i) } over the same collection
+					bd, ok = Match(l.Over, missing)
+				}
 				if !ok || !LoopBlocks(l.Header)[cs.Block()] {
 					continue
 				}
@@ -376,10 +381,7 @@ func checkC04(c *Ctx) {
 					why = "Missing is asked about a different request than the Load that missed"
 					continue
 				}
-				isElem := func(v ssa.Value, _ *Bind) bool {
-					idx, ok := elemLoadIndex(v, l.Over)
-					return ok && idx == l.Key
-				}
+				isElem := func(v ssa.Value, _ *Bind) bool { return l.IsElem(v) }
 				if matches(a[1], Method("Begin", isElem)) && matches(a[2], Conv(Method("Len", isElem))) {
 					argOK = true
 				} else {
@@ -417,7 +419,7 @@ func checkC04(c *Ctx) {
 		hitOK := false
 		isLoad := func(v ssa.Value) *ssa.Call {
 			call, ok := v.(*ssa.Call)
-			if ok && call.Call.StaticCallee() != nil && call.Call.StaticCallee().Name() == "Load" {
+			if ok && call.Call.StaticCallee() != nil && NameOf(call.Call.StaticCallee()) == "Load" {
 				return call
 			}
 			return nil
@@ -569,7 +571,7 @@ func layerAtom(fn *ssa.Function) func(v ssa.Value) string {
 		if len(fn.Params) >= 3 && IsWholeRange(v, fn.Params[1], fn.Params[2]) {
 			return "whole"
 		}
-		if f := call.Call.StaticCallee(); f != nil && f.Name() == "intervalMap" && len(call.Call.Args) == 1 && call.Call.Args[0] == ssa.Value(fn.Params[0]) {
+		if f := call.Call.StaticCallee(); f != nil && NameOf(f) == "intervalMap" && len(call.Call.Args) == 1 && call.Call.Args[0] == ssa.Value(fn.Params[0]) {
 			return "blocks"
 		}
 		return ""
